@@ -28,7 +28,9 @@ def c17_jobs(tier):
           job('adapters-asan-t1', 'c17a', 'asan', threads=1, shards=4 if q else 12, timeout=5400),
           job('adapters-plain-t4', 'c17a', 'plain', threads=4, args=['--sub', 'adapters,block_adapter,zerocopy'], timeout=3600),
           job('roworder-plain-t1', 'c17r', 'plain', threads=1, shards=2 if q else 8, timeout=3600),
-          job('roworder-asan-t1', 'c17r', 'asan', threads=1, shards=4 if q else 12, timeout=5400)]
+          # (separate processes: an assertion abort in one coupled-preconditioner case must not cost the other sub-checks their ASan run)
+          job('roworder-asan-t1', 'c17r', 'asan', threads=1, shards=3 if q else 10, args=['--sub', 'roworder_relax,roworder_amg'], timeout=5400),
+          job('roworder-coupled-asan-t1', 'c17r', 'asan', threads=1, shards=2 if q else 6, args=['--sub', 'roworder_exhaustive,roworder_coupled'], timeout=5400)]
     if not q:
         js += [job('roworder-plain-t2', 'c17r', 'plain', threads=2, shards=4, timeout=3600),
                job('adapters-asan-t4', 'c17a', 'asan', threads=4, shards=3, args=['--sub', 'adapters,block_adapter,zerocopy'], timeout=5400)]
@@ -36,9 +38,10 @@ def c17_jobs(tier):
 
 PROPS['C17'] = dict(
     level='exploration', jobs=c17_jobs,
-    rule='adapters: seeded square matrices (1..300 rows, sorted and unsorted rows, integer- or real-valued) presented through tuples of std::vector / iterator ranges with index types int, long, unsigned, size_t, ptrdiff_t (and mixed), crs, shared_ptr<crs>, crs_builder, Eigen::SparseMatrix (compressed and uncompressed), Eigen::Map (int / ptrdiff_t), uBLAS compressed_matrix; block_adapter: block_matrix<2,3,4> over tuple and crs + unblock; zerocopy: zero_copy / zero_copy_direct with signed and unsigned 64-bit and 32-bit indices on rectangular matrices, every 4th case builds an AMG hierarchy and an FGMRES solver on the user memory; reorder / scale: operator identities on random matrices, every 3rd case a solve on a G1 / G2 / G3 matrix (60..800 unknowns, thorough ..3000); roworder_*: G1/G2/G3/random diagonally dominant matrices (20..750 unknowns) and reservoir-like block systems, rows shuffled randomly or reversed, for as_preconditioner<9 relaxations>, amg<4 coarsenings x 9 relaxations (runtime wrappers)>, cpr, cpr_drs, schur_pressure_correction (types 1,2), make_solver. Non-trivial: the matrix stores entries (adapters) / the hierarchy has >= 2 levels (roworder_amg) / every class compared (roworder_relax: 9, roworder_coupled: 5 per case).',
-    min_nontrivial=dict(quick=500, thorough=6000),
-    require_obs=dict(quick=['zero_copy_cases', 'reorder_solves', 'scale_solves', 'actions_compared'], thorough=['zero_copy_cases', 'reorder_solves', 'scale_solves', 'actions_compared']),
+    rule='adapters: seeded square matrices (1..300 rows, sorted and unsorted rows, integer- or real-valued) presented through tuples of std::vector / iterator ranges with index types int, long, unsigned, size_t, ptrdiff_t (and mixed), crs, shared_ptr<crs>, crs_builder, Eigen::SparseMatrix (compressed and uncompressed), Eigen::Map (int / ptrdiff_t), uBLAS compressed_matrix; block_adapter: block_matrix<2,3,4> over tuple and crs + unblock; zerocopy: zero_copy / zero_copy_direct with signed and unsigned 64-bit and 32-bit indices on rectangular matrices, every 4th case builds an AMG hierarchy and an FGMRES solver on the user memory; reorder / scale: operator identities on random matrices, every 3rd case a solve on a G1 / G2 / G3 matrix (60..800 unknowns, thorough ..3000); roworder_exhaustive: see exhaustive_subspaces; roworder_*: G1/G2/G3/random diagonally dominant matrices (20..750 unknowns) and reservoir-like block systems, rows shuffled randomly or reversed, for as_preconditioner<9 relaxations>, amg<4 coarsenings x 9 relaxations (runtime wrappers)>, cpr, cpr_drs, schur_pressure_correction (types 1,2), make_solver. Non-trivial: the matrix stores entries (adapters) / the hierarchy has >= 2 levels (roworder_amg) / every class compared (roworder_relax: 9, roworder_coupled: 5 per case).',
+    exhaustive_note='roworder_exhaustive: every order of the entries within each row of a 3x3 full matrix (216 orders), a 4x4 cyclic tridiagonal matrix (1296) and a 2-cell 2-phase block system (1296), for as_preconditioner<9 relaxations>, amg, cpr, cpr_drs, schur_pressure_correction (types 1, 2)',
+    min_nontrivial=dict(quick=2500, thorough=15000),
+    require_obs=dict(quick=['zero_copy_cases', 'reorder_solves', 'scale_solves', 'actions_compared', 'permutations_enumerated'], thorough=['zero_copy_cases', 'reorder_solves', 'scale_solves', 'actions_compared', 'permutations_enumerated']),
     assumptions=COMMON_ASSUME,
     technique='reference-model oracle (source arrays, long-double SpMV, P A P^T and D^-1/2 A D^-1/2 formulas, truthful-residual oracle on the original system) + differential oracle sorted vs shuffled rows on the extracted preconditioner action + pointer-identity / ownership monitor for zero-copy under ASan+LSan',
     level_text='Every adapter named by the property presents seeded matrices to the library; sizes, complete row iteration, CRS conversion and SpMV are compared with the source, zero-copy variants are checked for pointer identity, ownership and untouched user memory under AddressSanitizer, reorder<> and scale_diagonal are checked entry-wise against their formulas and by solving and mapping the solution back to the original system, and every preconditioner class that accepts a user matrix is built from sorted and from row-shuffled input and compared through its extracted action. Held means: no observed execution deviated; it is not a proof for unobserved inputs.',
